@@ -2,7 +2,7 @@
 namespace Csproto.Generated
 
 def EncodeNested_arms : List String := ["MarshalerTo:Size,EncodeTag,EncodeVarint,.MarshalTo", "Marshaler:.Marshal,.EncodeBytes", "default:Marshal,.EncodeBytes"]
-def DecodeNested_arms : List String := ["Unmarshaler:.Unmarshal", "default:Unmarshal"]
+def DecodeNested_arms : List String := ["Unmarshaler:.Reset,.Unmarshal", "default:Unmarshal"]
 def Marshal_probes : List String := ["Marshaler:.Marshal", "ProtoV1Marshaler:.XXX_Size,.XXX_Marshal", "proto.Message:proto.Marshal"]
 def Unmarshal_probes : List String := ["Unmarshaler:.Reset,.Unmarshal", "ProtoV1Unmarshaler:.Reset,.XXX_Unmarshal", "proto.Message:proto.Unmarshal"]
 def Size_probes : List String := ["Sizer:.Size", "ProtoV1Sizer:.XXX_Size", "proto.Message:proto.Size"]
